@@ -79,6 +79,57 @@ Proof.
   rewrite insert_filter; [|assumption|assumption|apply sort_in_dom; assumption]. rewrite IH by assumption.
   cbn. destruct (key_eqv k (fst e)); reflexivity.
 Qed.
+(* uniqueness: a sorted list is determined by its key classes' subsequences; hence ANY stable sorting algorithm
+   (Python's sorted, documented stable) returns exactly what the model's insertion sort returns *)
+Lemma sorted_unique : forall l1 l2,
+  in_dom l1 -> in_dom l2 -> StronglySorted kle l1 -> StronglySorted kle l2 ->
+  (forall k, D k -> filter (fun x => key_eqv k (fst x)) l1 = filter (fun x => key_eqv k (fst x)) l2) ->
+  l1 = l2.
+Proof.
+  induction l1 as [|x t1 IH]; intros l2 D1 D2 S1 S2 HF.
+  - destruct l2 as [|y t2]; [reflexivity|]. inversion D2 as [|? ? Dy Dt]; subst.
+    specialize (HF (fst y) Dy). cbn in HF. unfold key_eqv in HF at 1.
+    assert (R : key_leb (fst y) (fst y) = true) by (destruct (total (fst y) (fst y) Dy Dy); assumption).
+    rewrite R in HF. discriminate.
+  - inversion D1 as [|? ? Dx Dt1]; subst. inversion S1 as [|? ? S1t Hx]; subst.
+    assert (Rx : key_leb (fst x) (fst x) = true) by (destruct (total (fst x) (fst x) Dx Dx); assumption).
+    destruct l2 as [|y t2].
+    + specialize (HF (fst x) Dx). cbn in HF. unfold key_eqv in HF at 1. rewrite Rx in HF. discriminate.
+    + inversion D2 as [|? ? Dy Dt2]; subst. inversion S2 as [|? ? S2t Hy]; subst.
+      assert (Ry : key_leb (fst y) (fst y) = true) by (destruct (total (fst y) (fst y) Dy Dy); assumption).
+      (* y occurs in x :: t1 and x occurs in y :: t2 *)
+      assert (Iy : In y (x :: t1)).
+      { pose proof (HF (fst y) Dy) as E. assert (In y (filter (fun z => key_eqv (fst y) (fst z)) (y :: t2))).
+        { apply filter_In. split; [left; reflexivity|]. unfold key_eqv. rewrite Ry. reflexivity. }
+        rewrite <- E in H. apply filter_In in H. apply H. }
+      assert (Ix : In x (y :: t2)).
+      { pose proof (HF (fst x) Dx) as E. assert (In x (filter (fun z => key_eqv (fst x) (fst z)) (x :: t1))).
+        { apply filter_In. split; [left; reflexivity|]. unfold key_eqv. rewrite Rx. reflexivity. }
+        rewrite E in H. apply filter_In in H. apply H. }
+      assert (Lxy : key_leb (fst x) (fst y) = true).
+      { destruct Iy as [<- | Iy]; [exact Rx|]. rewrite Forall_forall in Hx. apply Hx. exact Iy. }
+      assert (Lyx : key_leb (fst y) (fst x) = true).
+      { destruct Ix as [<- | Ix]; [exact Ry|]. rewrite Forall_forall in Hy. apply Hy. exact Ix. }
+      assert (Exy : x = y).
+      { pose proof (HF (fst x) Dx) as E. cbn [filter] in E.
+        assert (E1 : key_eqv (fst x) (fst x) = true) by (unfold key_eqv; rewrite Rx; reflexivity).
+        assert (E2 : key_eqv (fst x) (fst y) = true) by (unfold key_eqv; rewrite Lxy, Lyx; reflexivity).
+        rewrite E1, E2 in E. injection E as E _. exact E. }
+      subst y. f_equal. apply IH; try assumption.
+      intros k Dk. pose proof (HF k Dk) as E. cbn [filter] in E.
+      destruct (key_eqv k (fst x)); [injection E as E; exact E | exact E].
+Qed.
+
+Theorem sort_stable_unique l l' :
+  in_dom l -> in_dom l' -> StronglySorted kle l' ->
+  (forall k, D k -> filter (fun x => key_eqv k (fst x)) l' = filter (fun x => key_eqv k (fst x)) l) ->
+  l' = stable_sort l.
+Proof.
+  intros Dl Dl' S HF. apply sorted_unique; try assumption.
+  - apply sort_in_dom. assumption.
+  - apply stable_sort_sorted. assumption.
+  - intros k Dk. rewrite (HF k Dk). symmetry. apply stable_sort_stable; assumption.
+Qed.
 End Order.
 
 (* ---------- integer keys ---------- *)
